@@ -16,6 +16,7 @@ import (
 	"reflect"
 	"strings"
 	"sync"
+	"sync/atomic"
 
 	"github.com/oasisprotocol/curve25519-voi/curve"
 	"github.com/oasisprotocol/curve25519-voi/curve/scalar"
@@ -59,6 +60,22 @@ type sharedT struct {
 	xsk   []byte
 	xpriv x25519.PrivateKey // deliberately NOT clamped: read-only methods must not normalise it in place
 	xpeer x25519.PublicKey
+}
+
+// workSafe: a library call that misbehaves under concurrency may hand the workload something it cannot digest (a nil
+// slice where a digest was promised ...).  That is the library's failure, not the harness's: the panic becomes this
+// goroutine's result, which then differs from the sequential result (exit 3 = concurrent-result-mismatch).
+var workPanics int32
+
+func workSafe(id int, shared *sharedT, rounds int) (res string) {
+	defer func() {
+		if r := recover(); r != nil {
+			atomic.AddInt32(&workPanics, 1)
+			fmt.Println("RESULT-MISMATCH the workload of goroutine", id, "panicked on a library result:", r)
+			res = fmt.Sprint("PANIC: ", r)
+		}
+	}()
+	return work(id, shared, rounds)
 }
 
 func work(id int, shared *sharedT, rounds int) string {
@@ -531,6 +548,14 @@ func coldStart(n int) []string {
 		for id := 0; id < n; id++ {
 			go func(id int) {
 				defer done.Done()
+				defer func() {
+					// a library result the workload cannot digest (nil where bytes were promised) is the library's failure
+					if r := recover(); r != nil {
+						atomic.AddInt32(&workPanics, 1)
+						fmt.Println("RESULT-MISMATCH cold-start step of goroutine", id, "panicked on a library result:", r)
+						fmt.Fprintf(&outs[id], "PANIC(%v) ", r)
+					}
+				}()
 				ready.Done()
 				<-start
 				step(id)
@@ -624,24 +649,27 @@ func main() {
 	inputsBefore := sharedInputs()
 
 	before := globalDigest()
-	seq := work(0, sh, *rounds)
+	seq := workSafe(0, sh, *rounds)
 	// the sequential reference ran on the shared objects too; results must not depend on cache content
 	var wg sync.WaitGroup
 	res := make([]string, *n)
 	for i := range res {
 		wg.Add(1)
-		go func(i int) { defer wg.Done(); res[i] = work(i, sh, *rounds) }(i)
+		go func(i int) { defer wg.Done(); res[i] = workSafe(i, sh, *rounds) }(i)
 	}
 	wg.Wait()
 	bad := coldBad
-	seq0 := work(0, sh, *rounds)
+	seq0 := workSafe(0, sh, *rounds)
 	if seq0 != seq {
 		fmt.Println("RESULT-MISMATCH sequential rerun differs")
 		bad++
 	}
+	if atomic.LoadInt32(&workPanics) > 0 {
+		bad++
+	}
 	for i := range res {
 		// the expected output of goroutine i is work(i) run on its own (sequentially, afterwards)
-		if exp := work(i, sh, *rounds); res[i] != exp {
+		if exp := workSafe(i, sh, *rounds); res[i] != exp {
 			fmt.Println("RESULT-MISMATCH goroutine", i)
 			bad++
 		}
